@@ -20,6 +20,7 @@ pub struct Client {
     shared: Rc<MqttShared>,
     keepalive: Seconds,
     max_receive: usize,
+    max_topic_alias: u16,
     cfg: Cfg<MqttServiceConfig>,
     pkt: Box<codec::ConnectAck>,
 }
@@ -42,10 +43,19 @@ impl Client {
         shared: Rc<MqttShared>,
         pkt: Box<codec::ConnectAck>,
         max_receive: u16,
+        max_topic_alias: u16,
         keepalive: Seconds,
         cfg: Cfg<MqttServiceConfig>,
     ) -> Self {
-        Client { io, pkt, shared, cfg, keepalive, max_receive: max_receive as usize }
+        Client {
+            io,
+            pkt,
+            shared,
+            cfg,
+            keepalive,
+            max_topic_alias,
+            max_receive: max_receive as usize,
+        }
     }
 }
 
@@ -94,6 +104,7 @@ impl Client {
             shared: self.shared,
             keepalive: self.keepalive,
             max_receive: self.max_receive,
+            max_topic_alias: self.max_topic_alias,
             cfg: self.cfg,
             _t: marker::PhantomData,
         }
@@ -114,7 +125,7 @@ impl Client {
                 Ready::Ok(msg.disconnect(codec::Disconnect::default()))
             }),
             self.max_receive,
-            16,
+            self.max_topic_alias,
             self.cfg,
         );
         let control = ControlService::new(
@@ -141,7 +152,7 @@ impl Client {
             fn_service(|pkt| Ready::Ok(Either::Left(pkt))),
             service.into_service(),
             self.max_receive,
-            16,
+            self.max_topic_alias,
             self.cfg,
         );
         let control = ControlService::new(
@@ -173,7 +184,7 @@ impl Client {
             fn_service(|pkt| Ready::Ok(Either::Left(pkt))),
             service.into_service(),
             self.max_receive,
-            16,
+            self.max_topic_alias,
             self.cfg,
         );
         let control = ControlService::new(control, self.shared.clone());
@@ -197,6 +208,7 @@ pub struct ClientRouter<Err, PErr> {
     shared: Rc<MqttShared>,
     keepalive: Seconds,
     max_receive: usize,
+    max_topic_alias: u16,
     cfg: Cfg<MqttServiceConfig>,
     _t: marker::PhantomData<Err>,
 }
@@ -242,7 +254,7 @@ where
                 Ready::Ok(msg.disconnect(codec::Disconnect::default()))
             }),
             self.max_receive,
-            16,
+            self.max_topic_alias,
             self.cfg,
         );
         let control = ControlService::new(
@@ -268,7 +280,7 @@ where
             dispatch(self.builder.finish(), self.handlers),
             service.into_service(),
             self.max_receive,
-            16,
+            self.max_topic_alias,
             self.cfg,
         );
         let control = ControlService::new(
